@@ -110,15 +110,25 @@ class Unrecognised(Exception):
         self.sp = sp
 
 
+RET = 2      # path state: left the function with a non-error `return` (only produced when Effects.allow_ok_return)
+
+
 class Effects:
     """Enumerates the normally completing paths of a piece of HIR and records, per path, what happens to the byte stream.
     Tokens: ("read", fn) ("skip", n|("local", id)|"?") ("take", ("local", id)|"?") ("call", fn, key) ("marker",) ("seek", fn)
             ("with_pos", arg_node, closure_node) ("loop", index)   -- self.loops[index] = (node, body_paths)"""
     MAX_PATHS = 4096
 
-    def __init__(self, reader_ids):
+    def __init__(self, reader_ids, inline=None, root=None, depth=0):
+        """inline: {def key: body} of private helpers of the reader module that are followed instead of being one opaque `call` token
+        (an extracted helper gives the same tokens as the code it was extracted from); root: the body the nodes belong to."""
         self.reader_ids = set(reader_ids)
         self.loops = []
+        self.loop_ctx = []      # per loop: (root body node, reader ids) of the function the loop lives in
+        self.inline = inline or {}
+        self.root = root
+        self.depth = depth
+        self.allow_ok_return = False     # True: `return Ok(..)` ends a path with state RET instead of failing closed
 
     def is_reader(self, n):
         loc = H.local_of(n)
@@ -130,7 +140,7 @@ class Effects:
             nxt = []
             sub = None
             for toks, live in paths:
-                if not live:
+                if live is not True:
                     nxt.append((toks, live))
                     continue
                 if sub is None:
@@ -147,7 +157,7 @@ class Effects:
         pre = self.seq(prefix_nodes)
         out = []
         for toks, live in pre:
-            if not live:
+            if live is not True:
                 out.append((toks, live))
                 continue
             for br in branches:
@@ -177,17 +187,20 @@ class Effects:
             if not any(t for t, _l in body):
                 return pre      # a loop that never touches the stream
             self.loops.append((n, body))
+            self.loop_ctx.append((self.root, set(self.reader_ids)))
             tok = ("loop", len(self.loops) - 1)
-            return [(t + (tok,) if l else t, l) for t, l in pre]
+            return [(t + (tok,) if l is True else t, l) for t, l in pre]
         if k == "closure":
             if any(x.get("k") == "path" and x["res"].get("r") == "local" and x["res"]["id"] in self.reader_ids for x in H.walk(n["body"])):
                 return [((("closure-reader",),), True)]
             return [((), True)]
         if k == "ret":
+            ps = self.seq([n["e"]]) if "e" in n else [((), True)]
             if not H.is_err_exit(n):
+                if self.allow_ok_return and self.depth == 0:
+                    return [(t, RET if l is True else l) for t, l in ps]
                 # an early `return Ok(..)` would leave the region without going through the rest of the path
                 raise Unrecognised("early return that is not an error exit", n.get("sp"))
-            ps = self.seq([n["e"]]) if "e" in n else [((), True)]
             return [(t, False) for t, _l in ps]
         if k in ("break", "continue"):
             raise Unrecognised("`%s` inside an analysed region" % k, n.get("sp"))
@@ -208,19 +221,67 @@ class Effects:
                     tok = ("call", "<closure %s>" % c.get("name"), None)
                 else:
                     tok = ("call", H.callee_name(n), c.get("key"))
+                    cb = self.inline.get(c.get("key"))
+                    if cb is not None and self.depth < 3:
+                        return self._inline(ps, n, cb)
             return self._after(ps, tok, n)
         ps = self.seq(H.children(n))
         if n.get("ty") == "!":
-            return [(t, False) for t, _l in ps]
+            return [(t, False if l is True else l) for t, l in ps]
         return ps
+
+    def arg_token(self, a):
+        """Abstract value of a byte-count argument: folded constant, ("local", id, name), or "?"."""
+        a = H.peel(a, casts=True) if a is not None else None
+        v = fold_int(a) if a is not None else None
+        loc = H.local_of(a) if a is not None else None
+        return v if v is not None else ("local", loc[0], loc[1]) if loc else "?"
+
+    def _inline(self, ps, n, cb):
+        """Paths of a call to a helper whose body is followed: the helper's stream effects replace the call token."""
+        ids = set()
+        for j, a in enumerate(n["args"]):
+            if self.is_reader(a) and j < len(cb["params"]):
+                ids |= {i for i, _ in H.pat_bindings(cb["params"][j])}
+        sub = Effects(ids, inline=self.inline, root=cb["body"], depth=self.depth + 1)
+        sub.loops, sub.loop_ctx = self.loops, self.loop_ctx
+        first_loop = len(self.loops)
+        try:
+            inner = sub.paths(cb["body"])
+        except Unrecognised:
+            # a helper we cannot follow stays what it was before: one opaque call that is handed the stream
+            del self.loops[first_loop:], self.loop_ctx[first_loop:]
+            c = n.get("callee") or {}
+            return self._after(ps, ("call", H.callee_name(n), c.get("key")), n)
+        # byte counts passed as arguments: the helper's `skip(n)` is the caller's `skip(<argument>)`
+        amap = {}
+        for j, a in enumerate(n["args"]):
+            if j < len(cb["params"]) and not self.is_reader(a):
+                for i, _nm in H.pat_bindings(cb["params"][j]):
+                    amap[i] = self.arg_token(a)
+
+        def rw(toks):
+            return tuple((t[0], amap[t[1][1]]) if t[0] in ("skip", "take") and isinstance(t[1], tuple) and t[1][1] in amap else t for t in toks)
+        inner = [(rw(t), l) for t, l in inner]
+        for k_ in range(first_loop, len(self.loops)):
+            ln, lb = self.loops[k_]
+            self.loops[k_] = (ln, [(rw(t), l) for t, l in lb])
+        out = []
+        for t, l in ps:
+            if l is not True:
+                out.append((t, l))
+                continue
+            for t2, l2 in inner:
+                out.append((t + t2, l2))        # an error exit of the helper is propagated by `?` at the call site
+        return _dedup(out)
 
     def _after(self, ps, tok, n):
         dead = n.get("ty") == "!"
         out = []
         for t, l in ps:
-            if l and tok is not None:
+            if l is True and tok is not None:
                 t = t + (tok,)
-            out.append((t, l and not dead))
+            out.append((t, (not dead) if l is True else l))
         return out
 
     def reader_op(self, n):
@@ -228,10 +289,7 @@ class Effects:
         if name in D.READ_WIDTH or name == "read_vec" or name == "read_n":
             return ("read", name)
         if name in ("skip", "read_u8_vec"):
-            a = H.peel(n["args"][0], casts=True) if n["args"] else None
-            v = fold_int(a) if a is not None else None
-            loc = H.local_of(a) if a is not None else None
-            arg = v if v is not None else ("local", loc[0], loc[1]) if loc else "?"
+            arg = self.arg_token(n["args"][0]) if n["args"] else "?"
             return ("skip" if name == "skip" else "take", arg)
         if name == "marker":
             return ("marker",)
@@ -395,7 +453,7 @@ def r17_1(ctx):
         if not R.anchor("R17.1", "attribute dispatch loop of %s (fn %s)" % (loc, fn_name), d.ok, sp=(d.fn or {}).get("sp")):
             continue
         root = d.fn["body"]
-        eff = Effects(d.reader_ids)
+        eff = Effects(d.reader_ids, inline=inline_helpers(ctx, set()), root=root)
         # ---- header: statements of the loop body before the match
         body = H.peel(d.for_node["body"], refs=False)
         items = (body["stmts"] + ([body["tail"]] if "tail" in body else [])) if body.get("k") == "block" else [body]
@@ -531,6 +589,39 @@ def member_matches(ctx):
     return out
 
 
+def after_nodes(root, node):
+    """The statements evaluated after `node` completes normally, up to the end of the function body (stops at a loop or closure
+    boundary: what follows there is another iteration, not a continuation)."""
+    chain = H.parents_of(root, node) or []
+    out = []
+    cur = node
+    for p in reversed(chain):
+        k = p.get("k")
+        if k in ("for", "loop", "closure"):
+            break
+        if k == "block":
+            items = p["stmts"] + ([p["tail"]] if "tail" in p else [])
+            i = next((j for j, x in enumerate(items) if x is cur), None)
+            if i is not None:
+                out.extend(items[i + 1:])
+        cur = p
+    return out
+
+
+def inline_helpers(ctx, exclude_keys):
+    """Private free functions of duke::class_reader (not its submodules) that may be followed into: everything except the functions
+    with a role of their own (attribute skipper, the five dispatch functions)."""
+    out = {}
+    role = {CR + fn for fn, _ in LOCS}
+    for b in ctx.duke.bodies:
+        if b.get("dk") != "Fn" or not b["path"].startswith(CR) or "::" in b["path"][len(CR):]:
+            continue
+        if b["key"] in exclude_keys or b["path"] in role:
+            continue
+        out[b["key"]] = b
+    return out
+
+
 def r17_2(ctx):
     R = ctx.R
     R.rule("R17.2", "declining never disturbs what follows: every ControlFlow::Break arm of visit_class/visit_field/visit_method/"
@@ -550,9 +641,10 @@ def r17_2(ctx):
         b, m, cont, brk = got[0]
         member_fn[loc] = b
         rid = reader_param_ids(b)
-        eff = Effects(rid)
+        eff = Effects(rid, root=b["body"])
+        eff.allow_ok_return = True      # `Break(v) => { skip; return Ok(v) }` (early-return style) is the same as `Break(v) => { skip; Ok(v) }`
         try:
-            paths = eff.seq([brk["body"]])
+            paths = eff.seq([brk["body"]] + after_nodes(b["body"], m))
         except Unrecognised as u:
             R.unrecognised("R17.2", "break:%s" % loc, u.what, sp=u.sp or brk["sp"])
             continue
@@ -620,7 +712,8 @@ def r17_2_class(ctx, rd, mrec, skey, member_fn):
     idx = next((i for i, s in enumerate(items) if any(x is m for x in H.walk(s))), None)
     if not R.anchor("R17.2", "visit_class match at the top level of the class reader", idx is not None, sp=rd["sp"]):
         return
-    eff = Effects(rid)
+    helpers = inline_helpers(ctx, {skey} | {fb["key"] for fb in member_fn.values()})
+    eff = Effects(rid, inline=helpers, root=top)
     try:
         pre = [t for t, l in eff.seq(items[:idx] + [m["scrut"]]) if l]
     except Unrecognised as u:
@@ -642,7 +735,9 @@ def r17_2_class(ctx, rd, mrec, skey, member_fn):
            detail="fields and methods are both jumped over before the class attributes are read (JVMS 4.1 order: fields, methods, attributes)")
     for (i, node, body), which in zip(pres, ("fields", "methods")):
         bl = [t for t, l in body if l]
-        cnt = range_count_source(node, top, rid)
+        li_ = next(k for k, (ln, _b) in enumerate(eff.loops) if ln is node and eff.loops[k][1] is body)
+        lroot, lids = eff.loop_ctx[li_]
+        cnt = range_count_source(node, lroot or top, lids)
         shape_ok = len(bl) == 1 and len(bl[0]) == 2 and bl[0][0][0] == "skip" and bl[0][1][0] == "call" and bl[0][1][2] == skey
         n = bl[0][0][1] if shape_ok else None
         ok = shape_ok and n == want6[which] and cnt == "read_" + ctx.spec["members_count"] and i > 0 and toks[i - 1] == ("read", cnt)
@@ -669,9 +764,9 @@ def r17_2_class(ctx, rd, mrec, skey, member_fn):
             if i0_.get("k") == "mcall" and i0_["name"] == "marker" and eff.is_reader(i0_["recv"]):
                 marker_ids |= {i for i, _ in H.pat_bindings(s["pat"])}
     # Continue arm: count, dispatch loop, with_pos (last)
-    eff2 = Effects(rid)
+    eff2 = Effects(rid, inline=helpers, root=top)
     try:
-        cps = [t for t, l in eff2.seq([cont["body"]]) if l]
+        cps = [t for t, l in eff2.seq([cont["body"]] + after_nodes(top, m)) if l]
     except Unrecognised as u:
         R.unrecognised("R17.2", "class:continue-arm", u.what, sp=u.sp)
         return
@@ -701,7 +796,7 @@ def r17_2_class(ctx, rd, mrec, skey, member_fn):
             cids = set()
             for cp in clo["params"]:
                 cids |= {i for i, _ in H.pat_bindings(cp)}
-            eff3 = Effects(cids)
+            eff3 = Effects(cids, inline=helpers, root=clo["body"])
             try:
                 lp = [t for t, l in eff3.seq([clo["body"]]) if l]
                 ok = False
@@ -710,6 +805,8 @@ def r17_2_class(ctx, rd, mrec, skey, member_fn):
                     if a == ("read", "read_u16") and c == ("read", "read_u16") and b_[0] == "loop" and d_[0] == "loop":
                         n1, body1 = eff3.loops[b_[1]]
                         n2, body2 = eff3.loops[d_[1]]
+                        r1, ids1 = eff3.loop_ctx[b_[1]]
+                        r2, ids2 = eff3.loop_ctx[d_[1]]
                         def calls_only(body, fn, hdr):
                             # every iteration either hands the member to its reader, or (member table not of interest) skips it whole
                             bl = [t for t, l in body if l]
@@ -726,7 +823,8 @@ def r17_2_class(ctx, rd, mrec, skey, member_fn):
                             return n_read >= 1
                         hb = ctx.spec["member_header_bytes"]
                         ok = (calls_only(body1, member_fn.get("field"), hb["field"]) and calls_only(body2, member_fn.get("method"), hb["method"])
-                              and range_count_source(n1, clo["body"], cids) == "read_u16" and range_count_source(n2, clo["body"], cids) == "read_u16")
+                              and range_count_source(n1, r1 or clo["body"], ids1) == "read_u16"
+                              and range_count_source(n2, r2 or clo["body"], ids2) == "read_u16")
                 R.inst("R17.2", "class:members-replay", ok, sp=clo["sp"], got=[show_path(t, eff3) for t in lp],
                        expect="read_u16 loop{read_field(reader)} read_u16 loop{read_method(reader)}",
                        detail="fields_count x field_info then methods_count x method_info, each through the member reader that consumes the whole member")
@@ -792,6 +890,15 @@ T_ = ("T",)
 F_ = ("F",)
 
 
+def ty_is_option(ty):
+    ty = (ty or "").strip()
+    while ty.startswith("&"):
+        ty = ty[1:].strip()
+        if ty.startswith("mut "):
+            ty = ty[4:].strip()
+    return ty.startswith("core::option::Option<")
+
+
 def f_and(fs):
     out = []
     for f in fs:
@@ -843,16 +950,17 @@ class Formulas:
         self.interest_adts = set(ctx.spec["interests_adt"].values())
         self._pc_cache = {}
 
-    def cond(self, e, scope=None):
-        """`scope` identifies the match whose arms compare the attribute name (the name variable is per dispatch match)."""
+    def cond(self, e, scope=None, root=None, depth=0):
+        """`scope` identifies the match whose arms compare the attribute name (the name variable is per dispatch match);
+        `root` (the enclosing body) lets option tests (`if let Some(..) = x`, `x.is_some()`) be traced to the fills of x."""
         e = H.peel(e, refs=True, derefs=True)
         k = e.get("k")
         if k == "bin" and e["op"] == "&&":
-            return f_and([self.cond(e["l"], scope), self.cond(e["r"], scope)])
+            return f_and([self.cond(e["l"], scope, root, depth), self.cond(e["r"], scope, root, depth)])
         if k == "bin" and e["op"] == "||":
-            return f_or([self.cond(e["l"], scope), self.cond(e["r"], scope)])
+            return f_or([self.cond(e["l"], scope, root, depth), self.cond(e["r"], scope, root, depth)])
         if k == "un" and e.get("op") == "!":
-            return f_not(self.cond(e["e"], scope))
+            return f_not(self.cond(e["e"], scope, root, depth))
         if k == "lit" and isinstance((e.get("lit") or {}).get("v"), bool):
             return T_ if e["lit"]["v"] else F_
         if k == "field" and e.get("adt") in self.interest_adts:
@@ -863,39 +971,90 @@ class Formulas:
                 if scope is not None and cn and "class_constants::attribute::" in cn and isinstance(H.const_value(a), str):
                     f = ("name", scope, H.const_value(a))
                     return f if e["op"] == "==" else f_not(f)
-        if k == "letexpr":
-            return ("op", id(e))
+                bv = H.const_value(a)
+                if isinstance(bv, bool) and (b.get("ty") == "bool"):
+                    f = self.cond(b, scope, root, depth)
+                    return f if (e["op"] == "==") == bv else f_not(f)
+        if k == "letexpr" and root is not None:
+            return self.pat_formula(root, e["pat"], e["init"], depth)
+        if k == "mcall" and root is not None and ty_is_option(e["recv"].get("ty")):
+            if e["name"] in ("is_some", "is_some_and"):
+                return f_and([self.option_some(root, e["recv"], depth + 1), ("op", id(e))])
+            if e["name"] == "is_none":
+                return f_not(f_and([self.option_some(root, e["recv"], depth + 1), ("op", id(e))]))
         return ("op", id(e))
 
-    def pat_cond(self, pat):
+    def pat_formula(self, root, pat, scrut, depth=0):
+        """Condition for `pat` to match the value of `scrut`: `Some(..)` against an option expression holds only if that option can be
+        Some (traced to its fills); tuples are matched component-wise against tuple expressions; everything else is a data condition."""
         p = pat
         while p.get("k") in ("pref", "pbox", "pderef"):
             p = p["pat"]
-        if p.get("k") == "wild" or (p.get("k") == "bind" and "sub" not in p):
+        k = p.get("k")
+        if k == "wild" or (k == "bind" and "sub" not in p):
             return T_
-        return ("op", id(pat))
+        if k == "bind":
+            return self.pat_formula(root, p["sub"], scrut, depth)
+        op = ("op", id(pat))
+        if depth > 6:
+            return op
+        if k == "por":
+            return f_or([self.pat_formula(root, x, scrut, depth + 1) for x in p["pats"]])
+        if k == "ptuple" and scrut is not None:
+            s0 = H.peel(scrut, refs=True)
+            if s0.get("k") == "tuple" and len(s0["es"]) == len(p["pats"]):
+                return f_and([self.pat_formula(root, x, s0["es"][i], depth + 1) for i, x in enumerate(p["pats"])])
+            return op
+        if k == "ptuplestruct":
+            res = p["res"]
+            if res.get("adt") == "core::option::Option" and res.get("variant") == "Some" and scrut is not None and root is not None:
+                return f_and([self.option_some(root, scrut, depth + 1), op])
+        return op
+
+    def arm_formula(self, root, m, i, target=None, depth=0):
+        """Condition for arm i of match m to be the one taken (first-match semantics)."""
+        fs = []
+        for j in range(i):
+            a = m["arms"][j]
+            fs.append(f_not(f_and([self.pat_formula(root, a["pat"], m["scrut"], depth),
+                                   self.cond(a["guard"], id(m), root, depth) if "guard" in a else T_])))
+        a = m["arms"][i]
+        # the guard itself is being evaluated when target is inside it
+        inside_guard = target is not None and "guard" in a and any(x is target for x in H.walk(a["guard"]))
+        fs.append(f_and([self.pat_formula(root, a["pat"], m["scrut"], depth),
+                         T_ if inside_guard or "guard" not in a else self.cond(a["guard"], id(m), root, depth)]))
+        return f_and(fs)
+
+    OPTION_CLOSURE_METHODS = ("map", "and_then", "map_or", "map_or_else", "is_some_and", "inspect", "filter", "then")
 
     def reach(self, root, target, depth=0):
         """Condition under which `target` is evaluated inside `root` (data conditions opaque)."""
         fs = []
+        if depth > 6:
+            return T_
         for kind, node, extra in H.path_conditions(root, target):
             if kind == "if":
-                f = self.cond(node)
+                f = self.cond(node, None, root, depth + 1)
                 fs.append(f if extra else f_not(f))
             elif kind == "after-exit":
-                fs.append(f_not(self.cond(node)))
+                fs.append(f_not(self.cond(node, None, root, depth + 1)))
             elif kind == "iflet":
-                if extra:
-                    fs.append(self.some_cond(root, node, depth))
+                f = self.pat_formula(root, node["pat"], node["init"], depth + 1)
+                fs.append(f if extra else f_not(f))
+            elif kind == "letelse":
+                fs.append(self.pat_formula(root, node["pat"], node.get("init"), depth + 1))
             elif kind == "arm":
-                m, i = node, extra
-                for j in range(i):
-                    a = m["arms"][j]
-                    fs.append(f_not(f_and([self.pat_cond(a["pat"]), self.cond(a["guard"], id(m)) if "guard" in a else T_])))
-                a = m["arms"][i]
-                # the guard itself is being evaluated when target is inside it
-                inside_guard = "guard" in a and any(x is target for x in H.walk(a["guard"]))
-                fs.append(f_and([self.pat_cond(a["pat"]), T_ if inside_guard or "guard" not in a else self.cond(a["guard"], id(m))]))
+                fs.append(self.arm_formula(root, node, extra, target, depth + 1))
+        # a closure handed to an Option combinator runs only if the option is Some: `x.map(|t| visitor.visit(t))`
+        chain = H.parents_of(root, target) or []
+        for i, p in enumerate(chain):
+            if p.get("k") == "mcall" and p["name"] in self.OPTION_CLOSURE_METHODS and i + 1 < len(chain):
+                nxt = chain[i + 1]
+                if H.peel(nxt).get("k") == "closure" and any(a is nxt for a in p["args"]) and \
+                        ty_is_option(p["recv"].get("ty")):
+                    if p["name"] in ("map_or_else",) and p["args"] and p["args"][0] is nxt:
+                        continue        # the default closure runs when the option is None
+                    fs.append(f_and([self.option_some(root, p["recv"], depth + 1), ("op", id(p))]))
         return f_and(fs)
 
     # ---- option locals: `let mut x = None; ... x.insert_if_empty(..) / x = Some(..)`; `if let Some(..) = x` holds only after a fill
@@ -932,32 +1091,38 @@ class Formulas:
                     return None     # &mut x handed to something else
         return sites
 
-    def some_cond(self, root, letexpr, depth):
-        """Formula for `let Some(..) = <expr rooted in an option local>` being true."""
-        op = ("op", id(letexpr))
-        v = H.pat_variant(letexpr["pat"])
-        if not v or v[1] != "Some" or depth > 3:
-            return op
-        r = H.recv_root(letexpr["init"])
-        if not r:
-            return op
-        return f_and([self.local_some(root, r[0], depth), op])
+    OPTION_PASS = ("as_mut", "as_ref", "as_deref", "as_deref_mut", "take", "map", "and_then", "filter", "cloned", "copied", "clone",
+                   "inspect", "zip", "flatten", "and", "xor")
 
     def option_some(self, root, e, depth=0):
         """Formula under which the Option-typed expression can be Some (T when unknown)."""
-        if depth > 4:
+        if depth > 6 or e is None:
             return T_
-        e0 = H.peel(e, refs=False)
+        e0 = H.peel(e, refs=True, tries=False)
         k = e0.get("k")
         c = H.ctor_of(e0)
         if c and c[0] == "core::option::Option" and c[1] == "None":
             return F_
+        if c:
+            return T_
         if k == "block" and "tail" in e0:
             return self.option_some(root, e0["tail"], depth + 1)
         if k == "if" and "else" in e0:
-            cf = self.cond(e0["cond"])
+            cf = self.cond(e0["cond"], None, root, depth + 1)
             return f_or([f_and([cf, self.option_some(root, e0["then"], depth + 1)]),
                          f_and([f_not(cf), self.option_some(root, e0["else"], depth + 1)])])
+        if k == "match":
+            return f_or([f_and([self.arm_formula(root, e0, i, None, depth + 1), self.option_some(root, a["body"], depth + 1)])
+                         for i, a in enumerate(e0["arms"])])
+        if k == "mcall" and e0["name"] in self.OPTION_PASS and ty_is_option(e0["recv"].get("ty")):
+            f = self.option_some(root, e0["recv"], depth + 1)
+            if e0["name"] == "filter" and e0["args"]:
+                clo = H.peel(e0["args"][0])
+                if clo.get("k") == "closure":
+                    f = f_and([f, self.cond(clo["body"], None, root, depth + 1)])
+            return f
+        if k == "mcall" and e0["name"] in ("then", "then_some") and e0["recv"].get("ty") == "bool":
+            return self.cond(e0["recv"], None, root, depth + 1)
         loc = H.local_of(e0)
         if loc:
             if self.none_initialised(root, loc[0]):
@@ -1290,7 +1455,7 @@ def r17_3(ctx):
             continue
         adt = adt_of[loc]
         fields = {f["name"] for f in duke.adts[adt]["variants"][0]["fields"]} if adt in duke.adts else set()
-        eff = Effects(d.reader_ids)
+        eff = Effects(d.reader_ids, inline=inline_helpers(ctx, set()), root=d.fn["body"])
         length_ids = set()
         for s in H.walk(d.for_node["body"], into_closures=False):
             if s.get("k") == "let" and "init" in s:
@@ -1300,15 +1465,20 @@ def r17_3(ctx):
         ops = []
         for a in d.match["arms"]:
             for n in H.walk(a["body"], into_closures=False):
-                tok = None
-                if n.get("k") == "mcall" and eff.is_reader(n["recv"]):
-                    tok = eff.reader_op(n)
-                elif n.get("k") in ("call", "mcall") and any(eff.is_reader(x) for x in n["args"]):
-                    tok = ("call",)
-                if tok is None or tok[0] == "marker":
+                is_op = (n.get("k") == "mcall" and eff.is_reader(n["recv"])) or \
+                        (n.get("k") in ("call", "mcall") and any(eff.is_reader(x) for x in n["args"]))
+                if not is_op:
                     continue
-                is_skip = tok[0] == "skip" and isinstance(tok[1], tuple) and tok[1][1] in length_ids
-                ops.append((n, "skip" if is_skip else "parse", fm.reach(d.match, n)))
+                # what the operation (a stream primitive, or a helper that is followed) does on its completing paths
+                try:
+                    live = [t for t, l in eff.paths(n) if l is True]
+                except Unrecognised:
+                    live = [(("call", "?", None),)]
+                live = [t for t in live if any(x[0] != "marker" for x in t)]
+                if not live:
+                    continue
+                kinds = {classify_consumption(t, d.fn["body"], d.reader_ids, length_ids, eff) for t in live}
+                ops.append((n, "skip" if kinds == {"exact"} and all(x[0] == "skip" for t in live for x in t) else "parse", fm.reach(d.match, n)))
         scope = id(d.match)
         names = sorted({x for _n, _k, f in ops for x in names_in(f).get(scope, ())} | {a["name"] for a in D.attr_arms(d.match) if a["name"]})
         for v in names + [None]:
@@ -1473,7 +1643,8 @@ def place(adt, variant, field):
 
 
 TRANSPARENT_CTORS = {("core::option::Option", "Some"), ("core::result::Result", "Ok")}
-PASS_METHODS = ("clone", "to_owned", "into", "try_into", "as_ref", "as_mut", "into_iter", "iter", "unwrap_or_default", "to_vec")
+PASS_METHODS = ("clone", "to_owned", "into", "try_into", "as_ref", "as_mut", "into_iter", "iter", "unwrap_or_default", "to_vec",
+                "filter", "take", "flatten", "cloned", "copied", "unwrap_or", "unwrap", "expect", "rev", "drain")
 PASS_CALLS = ("from_attribute", "from", "try_from", "into", "try_into")
 
 
@@ -1550,6 +1721,9 @@ def origin(e, root, fn, depth=0):
         return place(e.get("adt"), None, e["name"])
     if k == "mcall" and e["name"] in PASS_METHODS:
         return origin(e["recv"], root, fn, depth + 1)
+    if k == "mcall" and e["name"] in ("then", "then_some") and e["recv"].get("ty") == "bool" and e["args"]:
+        a0 = H.peel(e["args"][0])
+        return origin(a0["body"] if a0.get("k") == "closure" else a0, root, fn, depth + 1)
     if k == "block" and "tail" in e and not e["stmts"]:
         return origin(e["tail"], root, fn, depth + 1)
     if k == "if" and "else" in e:
@@ -1630,6 +1804,26 @@ def origin_root(e, root, fn):
 STORE_METHODS = ("insert_if_empty", "push", "push_back", "extend", "insert", "get_or_insert", "replace")
 
 
+def bool_local_cond(e):
+    """(local id, value the local has when the condition is true) for `x`, `!x`, `x == true`, `x != false`, ...; None otherwise."""
+    inner, neg = H.negate_peel(e)
+    val = not neg
+    if inner.get("k") == "bin" and inner["op"] in ("==", "!="):
+        for a, b in ((inner["l"], inner["r"]), (inner["r"], inner["l"])):
+            bv = H.const_value(a)
+            if isinstance(bv, bool):
+                sub = bool_local_cond(b)
+                if sub:
+                    same = (inner["op"] == "==") == bv
+                    v = sub[1] if same else not sub[1]
+                    return sub[0], (v if val else not v)
+        return None
+    l = H.local_of(inner)
+    if l and (inner.get("ty") == "bool" or H.peel(inner).get("ty") == "bool"):
+        return l[0], val
+    return None
+
+
 class Stores:
     """Where the tree builder puts a visitor-method parameter."""
 
@@ -1681,18 +1875,16 @@ class Stores:
             pk = p.get("k")
             conds = []
             for kind, cn, pol in H.path_conditions(root, n):
-                if kind == "if":
-                    l = H.local_of(cn)
-                    if l:
-                        conds.append((l[0], pol))
+                if kind in ("if", "after-exit"):
+                    bc = bool_local_cond(cn)
+                    if bc:
+                        conds.append((bc[0], bc[1] == pol))
             if pk == "assign" and p["r"] is child:
-                pl = self.place_of(p["l"], body)
-                if pl:
-                    out.append((pl, conds))
+                for pl, cs in self.place_of(p["l"], body):
+                    out.append((pl, conds + cs))
             elif pk == "mcall" and p["name"] in STORE_METHODS and any(a is child for a in p["args"]):
-                pl = self.place_of(p["recv"], body)
-                if pl:
-                    out.append((pl, conds))
+                for pl, cs in self.place_of(p["recv"], body):
+                    out.append((pl, conds + cs))
             elif pk == "struct":
                 for f in p["fields"]:
                     if f["e"] is child:
@@ -1718,14 +1910,37 @@ class Stores:
                     out.append((("residual", idx), conds))
         return out
 
-    def place_of(self, e, body):
+    def place_of(self, e, body, depth=0):
+        """[(place, [(bool local, value)])] for the place a value is stored into; a local that was bound to `&mut self.a` or to
+        `if c { &mut self.a } else { &mut self.b }` stands for those fields."""
         e0 = H.peel(e, refs=True)
         if e0.get("k") == "field":
-            return place(e0.get("adt"), None, e0["name"])
+            return [(place(e0.get("adt"), None, e0["name"]), [])]
+        if e0.get("k") == "if" and "else" in e0 and depth < 4:
+            bc = bool_local_cond(e0["cond"])
+            out = []
+            for br, val in ((e0["then"], True), (e0["else"], False)):
+                for pl, cs in self.place_of(br, body, depth + 1):
+                    out.append((pl, cs + ([(bc[0], bc[1] == val)] if bc else [])))
+            return out
+        if e0.get("k") == "match" and depth < 4:
+            out = []
+            sl = H.local_of(e0["scrut"])
+            for a in e0["arms"]:
+                pe = a["pat"].get("e") if a["pat"].get("k") == "pexpr" else None
+                v = pe.get("v") if pe and pe.get("t") == "bool" else None
+                for pl, cs in self.place_of(a["body"], body, depth + 1):
+                    out.append((pl, cs + ([(sl[0], v)] if sl and isinstance(v, bool) else [])))
+            return out
         loc = H.local_of(e0)
-        if loc:
-            return ("self",)
-        return None
+        if loc and depth < 4:
+            init = H.let_init_of(body["body"], loc[0])
+            if init is not None:
+                r = self.place_of(init, body, depth + 1)
+                if r:
+                    return r
+            return [(("self",), [])]
+        return []
 
 
 def builder_methods(ctx):
@@ -2097,6 +2312,8 @@ def feeding_places(root, fn, sub_lid, finish_call):
                 l = H.local_of(a)
                 if l and (l[0] in seen or is_visitor_local(root, l[0])):
                     passed = l[0]
+                elif H.peel(a).get("k") == "closure":
+                    continue        # `iter.try_fold(v, |v, x| x.accept(v))`: the closure only forwards elements of the receiver
                 else:
                     data.append(a)
             if passed is None:
